@@ -35,6 +35,10 @@ func scenarioC01(r *Run) {
 		c01Siblings(r)
 		return
 	}
+	if t.Bool(1, 8, "c01.resign") {
+		c01Resign(r)
+		return
+	}
 	spec := genSpec(t, SpecOpts{MaxExtra: 40, MaxSigner: 6, BigOK: bigOK(r, "c01.big")})
 	if t.Bool(1, 8, "c01.recycled") {
 		r.RecycledSigCap = []int{1, 32, 64, 96, 132}[t.Choose(5, "c01.recycled.cap")]
@@ -429,4 +433,116 @@ func c01Siblings(r *Run) {
 		r.Probe("sibling-countersignatures-verified")
 	}
 	r.Outcome(fmt.Sprintf("siblings/%s/n=%s", spec.Kind, sizeClass(n)))
+}
+
+// c01Resign: the issuer takes a message it received and decoded (from the
+// foreign peer three times in five: wider-than-needed heads, other key
+// orders, h'a0' - all kept in the retained raw buckets), and signs it AGAIN
+// with its own key (a notary re-issuing a document, a gateway translating
+// between trust domains).  Signing succeeded, so the message verifies: in
+// memory - asked twice -, after a wire round trip, and so does an abbreviated
+// countersignature made over it in between.
+func c01Resign(r *Run) {
+	t := r.T
+	ent := NewEntropy(uint64(t.U32("entropy.seed")))
+	so := SpecOpts{MaxExtra: 6, MaxSigner: 1, Cheap: true}
+	src := r.GenWire(t, TrafficOpts{Spec: so, ForeignPct: 60}, ent)
+	if src == nil || src.Spec.Kind == refcose.KSignTagged {
+		r.Outcome("resign/no-sign1-traffic")
+		return
+	}
+	kind := src.Spec.Kind
+	rc, err := r.Decode(kind, src.B)
+	if err != nil {
+		r.Outcome("resign/source-not-accepted") // C07's business
+		return
+	}
+	key := src.Spec.Key
+	external := genExternal(t)
+	if nonCanonicalDeep(src.Dec, src.B) != "" {
+		r.Probe("resign-over-noncanonical-raw-buckets")
+	}
+	r.Op("RESIGN", "%s decoded, signed again with key=%s external=%s", src.Desc, key.Name, extClass(external))
+	r.Outcome("resign/" + kind.String())
+	signer := r.signerFor(key, false)
+	verifier := r.verifierFor(key, false)
+	m := rc.M1
+	m.Signature = nil
+	if !src.Detached && t.Bool(1, 2, "c01.resign.payload") {
+		m.Payload = t.Bytes(genLen(t, 64), "c01.resign.newpayload")
+	} else if m.Payload == nil {
+		m.Payload = src.Spec.Payload
+	}
+	var serr error
+	r.Lib(func() {
+		if kind == refcose.KSign1Untagged {
+			serr = (*cose.UntaggedSign1Message)(m).Sign(ent, external, signer)
+		} else {
+			serr = m.Sign(ent, external, signer)
+		}
+	})
+	if serr != nil {
+		r.Outcome("resign/sign-refused")
+		r.Logf("re-signing refused: %s", errTag(serr))
+		return
+	}
+	verify := func(mm *cose.Sign1Message) error {
+		var e error
+		r.Lib(func() {
+			if kind == refcose.KSign1Untagged {
+				e = (*cose.UntaggedSign1Message)(mm).Verify(external, verifier)
+			} else {
+				e = mm.Verify(external, verifier)
+			}
+		})
+		return e
+	}
+	r.Check()
+	if e := verify(m); e != nil {
+		r.Fail("verify-in-memory-fails/resigned-"+kind.String(), "a decoded message signed again does not verify in memory: %v\nsource: %s", e, hexShort(src.B))
+		return
+	}
+	if t.Bool(1, 2, "c01.resign.csig") {
+		ck := pickCheapKey(t)
+		var sig []byte
+		var cerr error
+		r.Lib(func() { sig, cerr = cose.Countersign0(ent, r.signerFor(ck, false), m, nil) })
+		if cerr == nil {
+			var verr error
+			r.Lib(func() { verr = cose.VerifyCountersign0(r.verifierFor(ck, false), m, nil, sig) })
+			r.Check()
+			if verr != nil {
+				r.Fail("countersignature-does-not-verify/resigned-parent", "an abbreviated countersignature just made over a re-signed decoded message does not verify: %v\nsource: %s", verr, hexShort(src.B))
+				return
+			}
+		}
+	}
+	r.Check()
+	if e := verify(m); e != nil {
+		r.Fail("verify-in-memory-fails/resigned-"+kind.String()+"/second-time", "a decoded message signed again verified once and does not verify when asked again: %v\nsource: %s", e, hexShort(src.B))
+		return
+	}
+	var wire []byte
+	r.Lib(func() {
+		if kind == refcose.KSign1Untagged {
+			wire, err = (*cose.UntaggedSign1Message)(m).MarshalCBOR()
+		} else {
+			wire, err = m.MarshalCBOR()
+		}
+	})
+	r.Check()
+	if err != nil {
+		r.Fail("signed-message-cannot-be-encoded/resigned-"+kind.String(), "a decoded message signed again cannot be encoded: %v\nsource: %s", err, hexShort(src.B))
+		return
+	}
+	rc2, derr := r.Decode(kind, wire)
+	if derr != nil {
+		r.Fail("decode-fails-after-resign/"+kind.String(), "a decoded message signed again is refused by the decoder after encoding: %v\nwire: %s", derr, hexShort(wire))
+		return
+	}
+	if e := verify(rc2.M1); e != nil {
+		r.Fail("verify-after-roundtrip-fails/resigned-"+kind.String(), "a decoded message signed again does not verify after a wire round trip: %v\nsource: %s\nwire:   %s", e, hexShort(src.B), hexShort(wire))
+		return
+	}
+	r.Probe("resigned-message-verified-twice-and-after-roundtrip")
 }
